@@ -1,7 +1,7 @@
 use crate::{
     error::Error,
     traits::{FlatSized, FlatUnsized},
-    utils::mem::check_align_and_min_size,
+    utils::{floor_mul, mem::check_align_and_min_size},
 };
 
 /// In-place initializer of flat type.
@@ -11,7 +11,9 @@ pub unsafe trait Emplacer<T: FlatUnsized + ?Sized>: Sized {
     /// Apply initializer for uninitialized memory.
     fn emplace(self, bytes: &mut [u8]) -> Result<&mut T, Error> {
         check_align_and_min_size::<T>(bytes)?;
-        unsafe { self.emplace_unchecked(bytes) }
+        // Only the bytes that the mapped value will actually cover are used.
+        let len = floor_mul(bytes.len(), T::ALIGN);
+        unsafe { self.emplace_unchecked(bytes.get_unchecked_mut(..len)) }
     }
 }
 
